@@ -24,11 +24,15 @@ pub struct Cx {
     /// values created by the setup (count 1 each) that writers will store: the concurrent phase
     /// then modifies counts by atomic add/sub only
     pub spare: [Option<VPtr>; 4],
+    /// permanent extra handles (one reference each) the bodies may clone from
+    pub pool: [Option<VPtr>; 4],
+    /// results recorded by bodies for the final function
+    pub res: [usize; 4],
 }
 const NOG: Option<G> = None;
 const NOV: Option<VPtr> = None;
 pub static mut CX: Cx =
-    Cx { a: None, b: None, held1: [NOG; 8], held2: [NOG; 8], parked: None, kept: [NOV; 4], spare: [NOV; 4] };
+    Cx { a: None, b: None, held1: [NOG; 8], held2: [NOG; 8], parked: None, kept: [NOV; 4], spare: [NOV; 4], pool: [NOV; 4], res: [9; 4] };
 
 /// progress flags of writers, for the real-time part of linearizability
 pub static STARTED: HAtomic = HAtomic::new(0);
@@ -256,6 +260,121 @@ pub extern "C" fn cs_w_store_b3() {
     merge();
 }
 
+// ------------------------------------------------------------------ compare_and_swap / rcu / moved guards
+
+/// A = obj0, and the harness keeps handles to every pool object (pool[i]) to clone from
+#[no_mangle]
+pub extern "C" fn cs_setup_pool() {
+    for i in 0..POOL {
+        cx().pool[i] = Some(VPtr::create(i, 10 + i as u64));
+    }
+    cx().a = Some(AS::new(cx().pool[0].as_ref().unwrap().clone()));
+}
+#[inline(always)]
+fn pool(i: usize) -> &'static VPtr {
+    cx().pool[i].as_ref().unwrap()
+}
+
+/// T1: compare_and_swap(current = obj0, new = obj1)
+#[no_mangle]
+pub extern "C" fn cs_w_cas01() {
+    let prev = a().compare_and_swap(pool(0), pool(1).clone());
+    merge();
+    let i = check_payload(&prev, 22);
+    cx().res[0] = i;
+    drop(prev);
+    merge();
+}
+/// T2: x = swap(obj2); store(obj0)   -- restores the very same object: A-B-A for the other thread
+#[no_mangle]
+pub extern "C" fn cs_w_swap2_store0() {
+    let x = a().swap(pool(2).clone());
+    merge();
+    cx().res[1] = check_payload(&x, 23);
+    drop(x);
+    merge();
+    a().store(pool(0).clone());
+    merge();
+}
+/// final for the pair above
+#[no_mangle]
+pub extern "C" fn cs_final_cas() {
+    let g = a().load();
+    merge();
+    let f = check_payload(&g, 41);
+    drop(g);
+    merge();
+    let prev = cx().res[0];
+    let x = cx().res[1];
+    let swapped = prev == 0;
+    // T1 saw obj0 (success) or obj2 (failure), never anything else
+    vassert(prev == 0 || prev == 2, 60);
+    // success: obj1 went in exactly once: it is either what T2's swap took out, or still stored
+    vassert(!swapped || (x == 1 && f == 0) || (x == 0 && f == 1), 61);
+    // failure: nothing of T1 is visible
+    vassert(swapped || (x == 0 && f == 0), 62);
+    expect_counts(f, usize::MAX);
+    vassert(slots_all_empty(), 42);
+    cover(13);
+}
+
+/// rcu "increment": install the next pool object on top of exactly the one that was read
+#[no_mangle]
+pub extern "C" fn cs_w_rcu_t1() {
+    let prev = a().rcu(|v| pool(v.idx() + 1).clone());
+    merge();
+    cx().res[0] = check_payload(&prev, 24);
+    drop(prev);
+    merge();
+}
+#[no_mangle]
+pub extern "C" fn cs_w_rcu_t2() {
+    let prev = a().rcu(|v| pool(v.idx() + 1).clone());
+    merge();
+    cx().res[1] = check_payload(&prev, 25);
+    drop(prev);
+    merge();
+}
+#[no_mangle]
+pub extern "C" fn cs_final_rcu2() {
+    let g = a().load();
+    merge();
+    let f = check_payload(&g, 41);
+    drop(g);
+    merge();
+    // two increments compose: 0 -> 1 -> 2, each rcu returns what it replaced
+    vassert(f == 2, 63);
+    let (p, q) = (cx().res[0], cx().res[1]);
+    vassert((p == 0 && q == 1) || (p == 1 && q == 0), 64);
+    expect_counts(f, usize::MAX);
+    vassert(slots_all_empty(), 42);
+    cover(13);
+}
+
+/// prologue of thread 1: a guard of A parked for another thread
+#[no_mangle]
+pub extern "C" fn cs_park_t1() {
+    cx().parked = Some(a().load());
+}
+/// thread 2 drops the guard that thread 1 created
+#[no_mangle]
+pub extern "C" fn cs_drop_parked() {
+    let g = cx().parked.take().unwrap();
+    merge();
+    check_payload(&g, 26);
+    drop(g);
+    merge();
+}
+
+/// prologue of thread 1 for C13: fast slots full (guards of B) and the generation at the wrap
+#[no_mangle]
+pub extern "C" fn cs_fill8_wrap_t1() {
+    for i in 0..8 {
+        cx().held1[i] = Some(b().load());
+    }
+    set_generation(u64::MAX - 3);
+}
+
 // ------------------------------------------------------------------ finals
 
 fn expect_counts(stored_a: usize, stored_b: usize) {
@@ -271,6 +390,9 @@ fn expect_counts(stored_a: usize, stored_b: usize) {
             want += 1;
         }
         if cx().spare[i].is_some() {
+            want += 1;
+        }
+        if cx().pool[i].is_some() {
             want += 1;
         }
         vassert(count_of_gated(i) == want, 50 + i as u32);
